@@ -264,9 +264,12 @@ class SwitchStart(LabelJumpMarker):
 
 class ForeverContinue(LabelJumpMarker):
     loop_id: int
+    # True if the jump carrying this marker was inserted by the loop detection and is not an op of the script.
+    inserted: bool
 
-    def __init__(self, loop_id: int):
+    def __init__(self, loop_id: int, inserted: bool = False):
         self.loop_id = loop_id
+        self.inserted = inserted
 
     def __str__(self) -> str:
         return f"LOOP_CONTINUE({self.loop_id})"
@@ -274,9 +277,12 @@ class ForeverContinue(LabelJumpMarker):
 
 class ForeverBreak(LabelJumpMarker):
     loop_id: int
+    # True if the jump carrying this marker was inserted by the loop detection and is not an op of the script.
+    inserted: bool
 
-    def __init__(self, loop_id: int):
+    def __init__(self, loop_id: int, inserted: bool = False):
         self.loop_id = loop_id
+        self.inserted = inserted
 
     def __str__(self) -> str:
         return f"LOOP_BREAK({self.loop_id})"
